@@ -229,12 +229,11 @@ def oracle_single(run: Run, c, res):
         for s, t in tasked:
             # the record for the primary target is the one the job of that target returns (with serendipitous observations on, another job of
             # the same sensor may report the target as well: that is an extra observation, not this pair's record)
-            own = [j for j in st["jobs"] if j["k"] == "T" and j["target"] == t]
-            n_obs = sum(1 for j in own for (so, to) in j["obs"] if (so, to) == (s, t))
-            n_miss = sum(1 for j in own for (flag, sm, tm) in j["missed"] if flag and (sm, tm) == (s, t))
-            if not own:
-                n_obs = sum(1 for (so, to, _) in st["obs"] if (so, to) == (s, t))
-                n_miss = sum(1 for (sm, tm, _) in st["miss"] if (sm, tm) == (s, t))
+            # counted on what the ENGINE holds after the step (not on what the jobs returned): its observations of the pair minus those that
+            # other jobs of the step reported serendipitously, plus its missed records of the pair
+            others = sum(1 for j in st["jobs"] if j["k"] == "T" and j["target"] != t for (so, to) in j["obs"] if (so, to) == (s, t))
+            n_obs = sum(1 for (so, to, _) in st["obs"] if (so, to) == (s, t)) - others
+            n_miss = sum(1 for (sm, tm, _) in st["miss"] if (sm, tm) == (s, t))
             if n_obs + n_miss != 1:
                 fails.append(("records", f"step {k + 1}: tasked pair sensor {s} / target {t} has {n_obs} observations and {n_miss} missed records (decision {c['decision']})"))
             sens = st["sensors"][s]
